@@ -903,6 +903,10 @@ func describe(op *Op, d Dec) (desc, feature string) {
 		}
 		what := "a literal"
 		switch {
+		case strings.HasPrefix(d.Form, "listshared"):
+			what = "a variable inside a list argument that is also a field argument"
+		case strings.HasPrefix(d.Form, "list"), strings.HasPrefix(d.Form, "obj"):
+			what = "a variable used only inside a list / object argument"
 		case strings.HasPrefix(d.Form, "shared"):
 			what = "a variable that is also a field argument"
 		case strings.HasPrefix(d.Form, "var"):
